@@ -1,6 +1,7 @@
 (* C14 - Transactions survive DSL and JSON round trips.  Statements only. *)
 From Coq Require Import ZArith NArith List Bool Ascii String Lia.
 Require Import CGT.Model.Date CGT.Model.Dsl CGT.Model.Json CGT.Proofs.DslFacts CGT.Proofs.DecFacts CGT.Proofs.DslRound CGT.Proofs.JsonRound CGT.Generated.JsonSchema.
+Require Import CGT.Model.Ledger CGT.Model.Report CGT.Model.Fx CGT.Model.Pipeline CGT.Proofs.PipelineFacts.
 Import ListNotations.
 Open Scope N_scope.
 
@@ -163,3 +164,16 @@ Proof. exact json_unknown_key_ignored. Qed.
 Print Assumptions C14_json_unknown_key_ignored.
 Example C14_unknown_key_applies : unknown_key (T "note") = true /\ unknown_key (T "Amount") = true /\ unknown_key (T "amount") = false.
 Proof. repeat split; reflexivity. Qed.
+
+(* "Hence a ledger, its DSL rendering and its JSON rendering all produce the same report": in the models, with the whole path from text to report
+   (Model/Pipeline.v: reader, exact value of each decimal, conversion to pounds at the monthly rates, matcher, summaries).  For every list of
+   well-formed transactions whose own amounts convert (every currency it uses has a rate for the month - a zero fee included), any rates, exemption
+   table and year filter: the report read from the DSL rendering is the report of the list, and the list read back from the JSON rendering has that
+   same report.  The premise is needed: a zero fee in a currency without a rate stops the list itself while its DSL rendering, which drops the fee,
+   goes through - the exception the property's wording makes. *)
+Theorem C14_same_report : forall (valid_cur : text -> bool) (rates : cache) (cfg : exemptions) (year : option Z) (ts : list dtxn) (l : list gtxn),
+  Forall (wf_txn valid_cur) ts -> Forall (jwf_txn valid_cur) ts -> ledger_to_gbp rates (map fx_of_dtxn ts) = inr l ->
+  pipeline valid_cur rates cfg year (print_txns ts) = after_parse rates cfg year ts /\
+  (exists back, read_txns valid_cur (map to_json ts) = JOk back /\ after_parse rates cfg year back = after_parse rates cfg year ts).
+Proof. exact renderings_same_report. Qed.
+Print Assumptions C14_same_report.
